@@ -138,6 +138,22 @@ fn main() {
                 if let Some(bb) = carried { c01::check_carried(p, bb, rep, "carried-legal"); }
                 if let Some(bb) = carried_uci { c01::check_carried(p, bb, rep, "carried-by-make_uci-legal"); }
             });
+            // castling under pressure: every kind of enemy piece (the king included) near or aimed at
+            // the start, transit and landing squares, bystanders on the path
+            let mut rng = gen::rng(args.seed, args.shard, 1001);
+            let n = args.budget(48_000, 800_000) / args.nshards.max(1);
+            for _ in 0..n {
+                let p = gen::castle_zone_position(&mut rng);
+                rep.count("castle_zone_positions");
+                c01::check(&p, &mut rep, &mut rng, pe, pd);
+                // and one ply later (the opponent's reply changes what is attacked)
+                let legal = p.legal_moves();
+                if !legal.is_empty() {
+                    let m = legal[rng.gen_range(0..legal.len())];
+                    let n1 = p.make(m);
+                    for m2 in n1.legal_moves().into_iter().take(3) { c01::check(&n1.make(m2), &mut rep, &mut rng, pe, pd); }
+                }
+            }
         }
         "c02" => {
             let cfg = StreamCfg { positions: args.budget(300_000, 3_000_000), max_plies: 600, max_half: 4095, max_full: 1_000_000 };
